@@ -53,6 +53,33 @@ func main() {
 			fmt.Fprintln(os.Stderr, err)
 			os.Exit(2)
 		}
+		if len(rf.Params.Batch) == 4 {
+			// batch replay: the same worker process history up to the run
+			b := rf.Params.Batch
+			var res *scen.Result
+			for i := uint64(0); i <= b[3]; i++ {
+				p := scen.Params{Prop: rf.Params.Prop, Scenario: rf.Params.Scenario, Seed: simrt.Mix(b[0], b[1]+i*b[2])}
+				if simrt.RaceBuild {
+					p.Extra = map[string]int{"race": 1}
+				}
+				res = scen.Run(p)
+				raceCheck(res)
+			}
+			res.Params.Batch = b
+			enc.Encode(res)
+			return
+		}
+		if simrt.RaceBuild {
+			// warm the process up: in a fresh process the first uses of library
+			// caches (encoding/json, reflect, sync.Pool) synchronise tasks with each
+			// other incidentally and can hide a race that a long-running process shows
+			for i := 0; i < 6; i++ {
+				w := rf.Params
+				w.Skip = nil
+				w.Seed = simrt.Mix(12345, uint64(i))
+				raceCheck(scen.Run(w))
+			}
+		}
 		res := scen.Run(rf.Params)
 		raceCheck(res)
 		enc.Encode(res)
@@ -73,6 +100,9 @@ func main() {
 		}
 		res := scen.Run(p)
 		raceCheck(res)
+		if res.V != nil && res.V.Tag == "race" {
+			res.Params.Batch = []uint64{*seed, uint64(*from), uint64(*stride), uint64(i)}
+		}
 		enc.Encode(res)
 		out.Flush()
 	}
